@@ -70,6 +70,34 @@ theorem split_invariance (d : Decoder) (a : Bytes) (frags : List Bytes) :
   Lemmas.HpackDec.split_invariance_list d a frags
 
 open H2V.Model.Hpack in
+/-- **the headline over fragmented input**: a header block that arrives as a HEADERS fragment `a`
+    followed by ANY number of CONTINUATION fragments of ANY sizes (empty ones included), fed one by
+    one the way `framed_read` does, and accepted at the end, is decoded by the RFC 7541 reference —
+    run once over the concatenation — to exactly the same field list and the same dynamic table,
+    with nothing left undecoded (`decode_sound` carried through `split_invariance`). -/
+theorem fragments_decode_sound (d : Decoder) (a : Bytes) (frags : List Bytes)
+    (hi : Lemmas.HpackDec.Table.Inv d.table) (hv : Bytes.Valid (a ++ frags.flatten))
+    (hc : d.continuing = false)
+    (hr : (frags.foldl Lemmas.HpackDec.feed (d.decode a)).result = .ok ()) :
+    Spec.Hpack.decode (Lemmas.HpackDec.abs d) (a ++ frags.flatten)
+        = .ok ((frags.foldl Lemmas.HpackDec.feed (d.decode a)).fields,
+               Lemmas.HpackDec.abs (frags.foldl Lemmas.HpackDec.feed (d.decode a)).dec) ∧
+    (frags.foldl Lemmas.HpackDec.feed (d.decode a)).tail = [] := by
+  rw [← Lemmas.HpackDec.split_invariance_list d a frags] at hr ⊢
+  exact Lemmas.HpackDec.decode_sound (fun bs h => Lemmas.Huffman.decode_eq_spec bs h) d _ hi hv hc hr
+
+open H2V.Model.Hpack in
+/-- … and a block that RFC 7541 makes a decoding error is rejected however it is cut into
+    fragments: no fragmentation makes h2 accept what the reference refuses -/
+theorem fragments_rfc_error_rejected (d : Decoder) (a : Bytes) (frags : List Bytes) (e : Spec.Hpack.Err)
+    (hi : Lemmas.HpackDec.Table.Inv d.table) (hv : Bytes.Valid (a ++ frags.flatten))
+    (hc : d.continuing = false)
+    (h : Spec.Hpack.decode (Lemmas.HpackDec.abs d) (a ++ frags.flatten) = .error e) :
+    (frags.foldl Lemmas.HpackDec.feed (d.decode a)).result ≠ .ok () := by
+  rw [← Lemmas.HpackDec.split_invariance_list d a frags]
+  exact Lemmas.HpackDec.spec_error_rejected (fun bs h => Lemmas.Huffman.decode_eq_spec bs h) d _ e hi hv hc h
+
+open H2V.Model.Hpack in
 /-- `table_within_limit`: after ANY sequence of decode / queue_size_update / continue_block calls
     the dynamic table's size is the sum of its entries' sizes, never exceeds its maximum, and the
     maximum never exceeds the largest SETTINGS_HEADER_TABLE_SIZE value the endpoint ever announced.
@@ -113,5 +141,13 @@ example : Lemmas.HpackDec.Table.Inv (Decoder.new 4096).table ∧
     (match ((Decoder.new 4096).decode [130, 134, 132, 65, 15, 119, 119, 119, 46, 101, 120, 97, 109, 112, 108, 101, 46, 99, 111, 109]).result with
       | .ok _ => true | .error _ => false) = true :=
   ⟨Lemmas.HpackDec.new_inv 4096, by decide +kernel⟩
+
+-- non-vacuity of the fragment theorems: the same block cut as HEADERS[130,134] + CONTINUATION[] +
+-- CONTINUATION[132,65,15,119] + CONTINUATION[rest] (a cut inside the literal) is accepted
+open H2V.Model.Hpack in
+example :
+    (match ([[], [132, 65, 15, 119], [119, 119, 46, 101, 120, 97, 109, 112, 108, 101, 46, 99, 111, 109]].foldl
+        Lemmas.HpackDec.feed ((Decoder.new 4096).decode [130, 134])).result with
+      | .ok _ => true | .error _ => false) = true := by decide +kernel
 
 end H2V.Props.C11
